@@ -12,7 +12,11 @@
     __aeabi_idiv/uidiv/idivmod/uidivmod are host hooks.
 (c) direct assertions on flag semantics / interworking / IT blocks / alignment / step limit.
 
-Run:  /venv/bin/python -m pytest -q tests/test_arm32.py      (< 60 s)
+Numbers (2026-09-22): A32 lattice 114014 words (56899 printed identically, the rest refused by both / LLVM soft-fails / named refusals), T16 all 59391
+halfwords (57412 identical), T32 lattice 226542 words (95676 identical), 17252 16-bit encodings inside an IT block; 8784 function runs
+(3 targets x 3 optimisation levels) agree with gcc.
+
+Run:  /venv/bin/python -m pytest -q tests/test_arm32.py      (about 40 s on the loaded 16-core machine)
 """
 import os
 import re
